@@ -15,6 +15,10 @@ def plan(tier):
             # columns containing double quotes (csv quoting): judged by parsed == written only
             "bed_quote_first", "bed_quote_inner", "gff_quote_columns",
             # file based API (to_file / from_file): rewriting a path with a shorter list; %XX-like values
+            # comment lines with arbitrary content; exhaustive CSV-hostile strings
+            "bed_comment_arbitrary_content", "gff_comment_arbitrary_content", "comment_first_line",
+            "comment_last_line", "comment_between_lines", "csv_hostile_exhaustive", "bed_quote_and_backslash",
+            "gff_hostile_attribute_atom",
             "bed_file_rewrite_shorter", "gff_file_rewrite_shorter", "gff_percent_escape_like_value",
         ],
         "rule": "file histories: Writer::to_file / Reader::from_file on one path, R1, shorter R2, empty, longer R4, each "
